@@ -122,6 +122,7 @@ status_t StringMatcher :: SetPattern(const String & s, bool isSimple)
             regexPattern = "^(";
 
             bool escapeMode = false;
+            int32 classStart = -1;  // index in (regexPattern) of the '[' of the character class we are currently inside of, or -1 if we aren't inside one
             for (const char * ptr = str; *ptr != '\0'; ptr++)
             {
                char c = *ptr;
@@ -135,10 +136,17 @@ status_t StringMatcher :: SetPattern(const String & s, bool isSimple)
                   // and e.g. glibc gives \w, \s, \b, \<, \>, \1 (etc) meanings of their own, which is not what the user asked for.
                   if (strchr(".[]()*+?{}|^$\\", c) != NULL) regexPattern += '\\';
                }
+               else if (classStart >= 0)
+               {
+                  // Inside a [...] character class every char stands for itself:  commas, dots, pluses, stars and question marks aren't
+                  // wildcards there, so they must reach regcomp() untranslated (otherwise eg "[a,b]" would match '|' but not ',')
+                  if (c == '\\') {escapeMode = true; continue;}
+               }
                else
                {
                   switch(c)
                   {
+                     case '[':  classStart = (int32) regexPattern.Length(); break;  // don't transform the members of a character class!
                      case ',':  c = '|';              break;  // commas are treated as union-bars
                      case '.':  regexPattern += '\\'; break;  // dots are considered literals, so escape those
                      case '+':  regexPattern += '\\'; break;  // pluses are considered literals, so escape those
@@ -147,6 +155,13 @@ status_t StringMatcher :: SetPattern(const String & s, bool isSimple)
                      case '\\': escapeMode = true;    continue;  // don't transform the next character!  (whether to emit the backslash is decided when we see it)
                      default:   /* empty */           break;
                   }
+               }
+
+               if ((classStart >= 0)&&(c == ']'))
+               {
+                  // The class ends at its first ']' that isn't its first member:  regcomp() takes "[]a]" and "[^]a]" to contain a literal ']'
+                  const uint32 firstMemberIdx = ((uint32)classStart)+(((regexPattern.Length() > ((uint32)classStart)+1)&&(regexPattern[classStart+1] == '^')) ? 2 : 1);
+                  if (regexPattern.Length() > firstMemberIdx) classStart = -1;
                }
                regexPattern += c;
             }
